@@ -96,6 +96,13 @@ func closureQueries(id string, kind Kind, u closureUniverse, m *Model) []Op {
 					o.K, o.K2 = clone(es[0].Raw), clone(es[len(es)-1].Raw)
 				}
 				ops = append(ops, o)
+				if stop >= 0 && stop < n {
+					for _, in := range []int{-1, 1, 2} {
+						o2 := o
+						o2.Re, o2.Btw, o2.In = 1, 0, in
+						ops = append(ops, o2)
+					}
+				}
 			}
 		}
 	case "C15":
